@@ -17,8 +17,10 @@
 // byte values at every position of length-3 strings, wide netloc hosts/ports/defaults under every ambient errno, and
 // HISTORIES: ordered pairs/triples of calls (state carried between calls), calls made in a catch handler, in a
 // destructor during unwinding and on a fresh thread, and multi-function chains judged by their final result.
+#include <ctype.h>
 #include <errno.h>
 #include <limits.h>
+#include <locale.h>
 #include <string.h>
 #include <sys/mman.h>
 #include <sys/wait.h>
@@ -26,7 +28,9 @@
 
 #include <algorithm>
 #include <functional>
+#include <locale>
 #include <optional>
+#include <sstream>
 #include <stdexcept>
 #include <string>
 #include <thread>
@@ -66,6 +70,217 @@ std::string L_enc_p(const void* p, size_t n, int m) { return m == M_OMITTED ? ph
 std::string L_enc_s(const std::string& x, int m) { return m == M_OMITTED ? phosg::base64_encode(x) : phosg::base64_encode(x, lib_alphabet(m)); }
 std::string L_dec_p(const void* p, size_t n, int m) { return m == M_OMITTED ? phosg::base64_decode(p, n) : phosg::base64_decode(p, n, lib_alphabet(m)); }
 std::string L_dec_s(const std::string& x, int m) { return m == M_OMITTED ? phosg::base64_decode(x) : phosg::base64_decode(x, lib_alphabet(m)); }
+
+// ---- ambient text-conversion environment (round 5) ----------------------------------------------
+// Every function of the property formats or parses numbers or classifies characters; what such code can silently
+// depend on is the process-wide C++ locale (std::locale::global), the C locale (setlocale) and the calling thread's
+// POSIX locale (uselocale).  The section `environments` enumerates these as a dimension; all other sections run with
+// g_env == nullptr (nothing is touched).  An environment is installed immediately around the library call(s) of a
+// case (EnvScope) and removed before the result is judged, so the engine's own output never runs under it.
+struct GroupPunct : std::numpunct<char> {
+  char sep, point;
+  std::string grp;
+  GroupPunct(char s, char p, std::string g) : sep(s), point(p), grp(std::move(g)) {}
+  char do_thousands_sep() const override { return sep; }
+  char do_decimal_point() const override { return point; }
+  std::string do_grouping() const override { return grp; }
+};
+// a ctype<char> facet in the style of a single-byte national locale: every byte 0x80..0xFF is a printable letter
+// (odd values upper case, even values lower case); bytes below 0x80 are classified as in the classic locale
+const std::ctype<char>::mask* high_letters_table() {
+  static std::ctype<char>::mask tab[std::ctype<char>::table_size];
+  static bool done = false;
+  if (!done) {
+    const std::ctype<char>::mask* c = std::ctype<char>::classic_table();
+    for (size_t i = 0; i < std::ctype<char>::table_size; i++) tab[i] = c[i];
+    for (size_t i = 0x80; i < 0x100 && i < std::ctype<char>::table_size; i++)
+      tab[i] = std::ctype_base::alpha | std::ctype_base::print | std::ctype_base::graph | ((i & 1) ? std::ctype_base::upper : std::ctype_base::lower);
+    done = true;
+  }
+  return tab;
+}
+struct Env {
+  std::string name;
+  bool use_cpp = false;
+  std::locale cpp;           // installed with std::locale::global
+  std::string grouped_1234567;  // what an ostringstream must print for 1234567 under it ("" = not checked)
+  bool high_letters = false;
+  bool use_c = false;
+  int cat = LC_ALL;
+  std::string cname;         // setlocale(cat, cname)
+  bool use_thread = false;
+  int mask = 0;              // uselocale(newlocale(mask, cname, 0))
+  locale_t thr = (locale_t)0;
+  bool c_ctype_ascii = true;  // C isalnum() is true only for ASCII letters and digits under this environment
+  // Switching the C locale costs ~10 us (setlocale looks the locale up each time), so environments that involve
+  // setlocale (directly or through a named std::locale) are installed once per block of cases by the section
+  // (EnvBlock); the others are installed around the library call(s) of every single case (EnvScope).
+  bool block = false;
+  void install() const {
+    if (use_cpp) std::locale::global(cpp);
+    if (use_c) setlocale(cat, cname.c_str());
+    if (use_thread) uselocale(thr);
+  }
+  void remove() const {
+    if (use_thread) uselocale(LC_GLOBAL_LOCALE);
+    if (use_cpp) std::locale::global(std::locale::classic());  // for a named locale this also performs setlocale(LC_ALL, "C")
+    if (use_c || block) setlocale(LC_ALL, "C");
+  }
+};
+const Env* g_env = nullptr;
+struct EnvScope {
+  const Env* e;
+  EnvScope() : e(g_env && !g_env->block ? g_env : nullptr) {
+    if (e) e->install();
+  }
+  ~EnvScope() {
+    if (e) e->remove();
+  }
+};
+struct EnvBlock {
+  const Env* e;
+  explicit EnvBlock(const Env* env) : e(env && env->block ? env : nullptr) {
+    if (e) e->install();
+  }
+  ~EnvBlock() {
+    if (e) e->remove();
+  }
+};
+// finding key / description under the current environment: a failure that appears only under a non-default
+// environment carries that in its key (the classic environment is enumerated first and uses the plain key)
+std::string K(const char* key) { return g_env ? std::string(key) + ":under-non-default-locale" : std::string(key); }
+std::string envtag() { return g_env ? " [environment: " + g_env->name + "]" : std::string(); }
+
+const char* cat_name(int cat) { return cat == LC_ALL ? "LC_ALL" : (cat == LC_NUMERIC ? "LC_NUMERIC" : (cat == LC_CTYPE ? "LC_CTYPE" : "LC_?")); }
+
+// The enumerated environments; index 0 (nullptr in g_env) is the classic one.  C / thread locales are probed: every
+// name of the list that setlocale accepts on this machine is enumerated (the list is fixed, the outcome of the probe
+// is the same in every shard of a run).
+const std::vector<Env>& environments(std::vector<std::string>* unavailable = nullptr) {
+  static std::vector<Env>& v = *new std::vector<Env>();  // never destroyed: the locale_t objects stay reachable
+  static std::vector<std::string> missing;
+  static bool done = false;
+  if (!done) {
+    done = true;
+    auto cpp = [&](const std::string& name, std::locale loc, const std::string& g, bool high) {
+      Env e;
+      e.name = "std::locale::global(" + name + ")";
+      e.use_cpp = true;
+      e.cpp = loc;
+      e.grouped_1234567 = g;
+      e.high_letters = high;
+      v.push_back(e);
+    };
+    const std::locale& cl = std::locale::classic();
+    cpp("classic + numpunct grouping \"\\3\", thousands_sep ','", std::locale(cl, new GroupPunct(',', '.', "\3")), "1,234,567", false);
+    cpp("classic + numpunct grouping \"\\3\", thousands_sep '.', decimal_point ','", std::locale(cl, new GroupPunct('.', ',', "\3")), "1.234.567", false);
+    cpp("classic + numpunct grouping \"\\1\", thousands_sep ' '", std::locale(cl, new GroupPunct(' ', '.', "\1")), "1 2 3 4 5 6 7", false);
+    cpp("classic + numpunct grouping \"\\3\\2\", thousands_sep '\\''", std::locale(cl, new GroupPunct('\'', '.', "\3\2")), "12'34'567", false);
+    cpp("classic + numpunct decimal_point ',' without grouping", std::locale(cl, new GroupPunct(',', ',', "")), "1234567", false);
+    cpp("classic + ctype<char> classifying 0x80..0xFF as letters", std::locale(cl, new std::ctype<char>(high_letters_table(), false)), "1234567", true);
+    cpp("classic + that ctype<char> + numpunct grouping \"\\3\" ','", std::locale(std::locale(cl, new std::ctype<char>(high_letters_table(), false)), new GroupPunct(',', '.', "\3")), "1,234,567", true);
+    // C locales
+    static const char* names[] = {"C", "C.utf8", "C.UTF-8", "", "en_US.UTF-8", "en_US.utf8", "en_US", "en_US.ISO-8859-1", "de_DE.UTF-8", "de_DE", "de_DE@euro", "fr_FR.UTF-8", "tr_TR.UTF-8", "ru_RU.UTF-8", "ja_JP.UTF-8", "hi_IN", "en_IN", "de_CH.UTF-8"};
+    std::vector<std::string> resolved_seen = {"c"};  // what setlocale(LC_ALL, name) resolves to; plain "C" is the classic environment
+    for (const char* n : names) {
+      const char* res = setlocale(LC_ALL, n);
+      std::string resolved = res ? res : "";
+      bool ascii = true;
+      if (res)
+        for (int c = 0x80; c < 0x100; c++)
+          if (isalnum(c) || isalnum(static_cast<char>(c))) ascii = false;
+      setlocale(LC_ALL, "C");
+      if (!res) {
+        missing.push_back(n);
+        continue;
+      }
+      bool first_c = std::string(n) == "C";
+      bool from_environment = !*n;  // setlocale(LC_ALL, "") - what LANG / LC_* of the checking process select (deterministic under check.py)
+      std::string norm;
+      for (char c : resolved)
+        if (c != '-') norm += static_cast<char>(tolower(static_cast<unsigned char>(c)));
+      resolved = norm;
+      bool dup = std::find(resolved_seen.begin(), resolved_seen.end(), resolved) != resolved_seen.end();
+      if (dup && !first_c) continue;  // an alias of a locale already enumerated ("" -> C, C.UTF-8 -> C.utf8)
+      resolved_seen.push_back(resolved);
+      for (int cat : {LC_ALL, LC_NUMERIC, LC_CTYPE}) {
+        if ((first_c || from_environment) && cat != LC_ALL) continue;
+        Env e;
+        e.name = vf::fmt("setlocale(%s, \"%s\")", cat_name(cat), n);
+        e.use_c = true;
+        e.cat = cat;
+        e.cname = n;
+        e.c_ctype_ascii = ascii || cat == LC_NUMERIC;
+        e.block = true;
+        v.push_back(e);
+      }
+      if (!first_c && !from_environment) {
+        for (int mask : {LC_ALL_MASK}) {
+          Env e;
+          e.name = vf::fmt("uselocale(newlocale(LC_ALL_MASK, \"%s\")) on the calling thread", n);
+          e.use_thread = true;
+          e.mask = mask;
+          e.cname = n;
+          e.thr = newlocale(mask, n, (locale_t)0);
+          e.c_ctype_ascii = ascii;
+          if (e.thr) v.push_back(e);
+        }
+        // named C++ locale (std::locale::global of a named locale also performs setlocale(LC_ALL, name))
+        try {
+          Env e;
+          e.name = vf::fmt("std::locale::global(std::locale(\"%s\"))", n);
+          e.use_cpp = true;
+          e.cpp = std::locale(n);
+          e.c_ctype_ascii = ascii;
+          e.block = true;
+          v.push_back(e);
+        } catch (const std::runtime_error&) {
+        }
+        // the application's usual start-up pair: both the C++ and the C locale non-default
+        Env e;
+        e.name = vf::fmt("std::locale::global(classic + numpunct grouping \"\\3\" ',') and setlocale(LC_ALL, \"%s\")", n);
+        e.use_cpp = true;
+        e.cpp = std::locale(cl, new GroupPunct(',', '.', "\3"));
+        e.grouped_1234567 = "1,234,567";
+        e.use_c = true;
+        e.cat = LC_ALL;
+        e.cname = n;
+        e.c_ctype_ascii = ascii;
+        e.block = true;
+        v.push_back(e);
+      }
+    }
+  }
+  if (unavailable) *unavailable = missing;
+  return v;
+}
+// Harness self-check: the environment really is in force where the library call is made.  "" = yes.
+std::string env_not_established(const Env& e) {
+  std::string bad;
+  {
+    e.install();
+    if (e.use_cpp) {
+      std::ostringstream o;
+      o << 1234567;
+      if (!e.grouped_1234567.empty() && o.str() != e.grouped_1234567) bad = "an ostringstream prints 1234567 as " + o.str();
+      if (e.high_letters != std::isalpha(static_cast<char>(0xE9), std::locale())) bad = "std::isalpha(0xE9, std::locale()) is not what the installed ctype facet says";
+    }
+    if (e.use_c) {
+      const char* cur = setlocale(e.cat, nullptr);
+      const char* want = e.cname.empty() ? nullptr : e.cname.c_str();
+      if (!cur || (want && std::string(cur) != want)) bad = std::string("setlocale(category, NULL) reports ") + (cur ? cur : "(null)");
+    }
+    if (e.use_thread && uselocale((locale_t)0) != e.thr) bad = "uselocale(0) is not the installed thread locale";
+    e.remove();
+  }
+  if (bad.empty()) {
+    std::ostringstream o;
+    o << 1234567;
+    const char* cur = setlocale(LC_ALL, nullptr);
+    if (o.str() != "1234567" || !cur || std::string(cur) != "C" || uselocale((locale_t)0) != LC_GLOBAL_LOCALE) bad = "the classic environment was not restored after the scope";
+  }
+  return bad;
+}
 
 std::string ref_encode(const std::string& in, const char* alpha) {
   std::string out;
@@ -207,25 +422,33 @@ struct Exact {
 void encode_case(vf::Run& r, Out& out, const std::string& x, int m, bool to_file, size_t off = 0) {
   std::string want = ref_encode(x, rfc_alphabet(m));
   Exact in(x, off);
-  if (r.wants_desc()) r.desc(vf::fmt("base64_encode(%s, %s) [input pointer misaligned by %zu] and decode of the result", brief(x).c_str(), mode_name[m], off));
+  if (r.wants_desc()) r.desc(vf::fmt("base64_encode(%s, %s) [input pointer misaligned by %zu] and decode of the result", brief(x).c_str(), mode_name[m], off) + envtag());
   r.poison_errno();
-  std::string got = L_enc_p(in.p, in.n, m);
-  std::string got_s = L_enc_s(x, m);
+  std::string got, got_s;
+  {
+    EnvScope es;
+    got = L_enc_p(in.p, in.n, m);
+    got_s = L_enc_s(x, m);
+  }
   if (to_file && out.f) fprintf(out.f, "E %d %s %s\n", is_url(m) ? 1 : 0, hexs(x).c_str(), got.empty() ? "-" : hexs(got).c_str());
   r.nontriv();
   if (got != want) {
-    r.fail("base64_encode:wrong-encoding", [&] { return vf::fmt("base64_encode(%s, %s) = %s, RFC 4648 gives %s (first difference at offset %zu)", brief(x).c_str(), mode_name[m], brief(got).c_str(), brief(want).c_str(), first_diff(got, want)); });
+    r.fail(K("base64_encode:wrong-encoding"), [&] { return vf::fmt("base64_encode(%s, %s) = %s, RFC 4648 gives %s (first difference at offset %zu)", brief(x).c_str(), mode_name[m], brief(got).c_str(), brief(want).c_str(), first_diff(got, want)) + envtag(); });
     return;
   }
   if (got_s != want) {
-    r.fail("base64_encode:string-overload", [&] { return vf::fmt("base64_encode(std::string %s, %s) = %s, RFC 4648 gives %s", brief(x).c_str(), mode_name[m], brief(got_s).c_str(), brief(want).c_str()); });
+    r.fail(K("base64_encode:string-overload"), [&] { return vf::fmt("base64_encode(std::string %s, %s) = %s, RFC 4648 gives %s", brief(x).c_str(), mode_name[m], brief(got_s).c_str(), brief(want).c_str()) + envtag(); });
     return;
   }
   std::string back, back_s, what;
   Exact enc(got, off);
-  std::string oc = vf::outcome([&] { back = L_dec_p(enc.p, enc.n, m); back_s = L_dec_s(got, m); }, &what);
-  if (oc != "ok") r.fail("base64_decode:rejects-valid", [&] { return vf::fmt("base64_decode(base64_encode(%s)) = decode(%s) with %s threw %s (%s)", brief(x).c_str(), brief(got).c_str(), mode_name[m], oc.c_str(), what.c_str()); });
-  else if (back != x || back_s != x) r.fail("base64:roundtrip", [&] { return vf::fmt("base64_decode(base64_encode(%s)) with %s = %s / string overload %s", brief(x).c_str(), mode_name[m], brief(back).c_str(), brief(back_s).c_str()); });
+  std::string oc;
+  {
+    EnvScope es;
+    oc = vf::outcome([&] { back = L_dec_p(enc.p, enc.n, m); back_s = L_dec_s(got, m); }, &what);
+  }
+  if (oc != "ok") r.fail(K("base64_decode:rejects-valid"), [&] { return vf::fmt("base64_decode(base64_encode(%s)) = decode(%s) with %s threw %s (%s)", brief(x).c_str(), brief(got).c_str(), mode_name[m], oc.c_str(), what.c_str()) + envtag(); });
+  else if (back != x || back_s != x) r.fail(K("base64:roundtrip"), [&] { return vf::fmt("base64_decode(base64_encode(%s)) with %s = %s / string overload %s", brief(x).c_str(), mode_name[m], brief(back).c_str(), brief(back_s).c_str()) + envtag(); });
   else r.ok(x.size() % 3 == 0 ? "encode=RFC4648,roundtrip(no padding)" : (x.size() % 3 == 1 ? "encode=RFC4648,roundtrip(==)" : "encode=RFC4648,roundtrip(=)"));
 }
 
@@ -236,47 +459,51 @@ void decode_case(vf::Run& r, Out* out, const std::string& s, int m, uint64_t* ta
   Verdict v = REF.decode(s, is_url(m), want);
   Exact in(s, off);
   std::string got, what, got_s, what_s;
-  if (r.wants_desc()) r.desc(vf::fmt("base64_decode(%s, %s): reference says %s", brief(s).c_str(), mode_name[m], verdict_name[v]));
+  if (r.wants_desc()) r.desc(vf::fmt("base64_decode(%s, %s): reference says %s", brief(s).c_str(), mode_name[m], verdict_name[v]) + envtag());
   r.poison_errno();
-  std::string oc = vf::outcome([&] { got = L_dec_p(in.p, in.n, m); }, &what);
-  std::string oc_s = vf::outcome([&] { got_s = L_dec_s(s, m); }, &what_s);
+  std::string oc, oc_s;
+  {
+    EnvScope es;
+    oc = vf::outcome([&] { got = L_dec_p(in.p, in.n, m); }, &what);
+    oc_s = vf::outcome([&] { got_s = L_dec_s(s, m); }, &what_s);
+  }
   if (out && out->f) fprintf(out->f, "D %d %s %s %s\n", is_url(m) ? 1 : 0, hexs(s).c_str(), v <= V_OK_NONCANONICAL ? hexs(want).c_str() : "!", oc == "ok" ? hexs(got).c_str() : (oc == "invalid_argument" ? "!" : "?"));
   r.nontriv();
   auto d = [&] {
     return vf::fmt("base64_decode(%s, %s): input is %s; library %s", brief(s).c_str(), mode_name[m], verdict_name[v],
-        oc == "ok" ? ("returned " + brief(got)).c_str() : ("threw " + oc + " (" + what + ")").c_str());
+        oc == "ok" ? ("returned " + brief(got)).c_str() : ("threw " + oc + " (" + what + ")").c_str()) + envtag();
   };
   if (oc != "ok" && oc != "invalid_argument") {
-    r.fail("base64_decode:wrong-exception-type", d);
+    r.fail(K("base64_decode:wrong-exception-type"), d);
     return;
   }
   int cls;
   switch (v) {
     case V_OK:
-      if (oc != "ok") { r.fail("base64_decode:rejects-valid", d); return; }
-      if (got != want) { r.fail("base64_decode:wrong-value", [&] { return d() + ", expected " + brief(want); }); return; }
+      if (oc != "ok") { r.fail(K("base64_decode:rejects-valid"), d); return; }
+      if (got != want) { r.fail(K("base64_decode:wrong-value"), [&] { return d() + ", expected " + brief(want); }); return; }
       cls = 0;
       break;
     case V_OK_NONCANONICAL:  // accept/reject is a don't-care; an accepted value must still be the data bits
-      if (oc == "ok" && got != want) { r.fail("base64_decode:wrong-value", [&] { return d() + ", expected " + brief(want); }); return; }
+      if (oc == "ok" && got != want) { r.fail(K("base64_decode:wrong-value"), [&] { return d() + ", expected " + brief(want); }); return; }
       cls = oc == "ok" ? 1 : 2;
       break;
     case V_BAD_LENGTH:
-      if (oc == "ok") { r.fail("base64_decode:accepts-length-not-multiple-of-4", d); return; }
+      if (oc == "ok") { r.fail(K("base64_decode:accepts-length-not-multiple-of-4"), d); return; }
       cls = 3;
       break;
     case V_BAD_CHAR:
-      if (oc == "ok") { r.fail("base64_decode:accepts-non-alphabet-char", d); return; }
+      if (oc == "ok") { r.fail(K("base64_decode:accepts-non-alphabet-char"), d); return; }
       cls = 4;
       break;
     default:
-      if (oc == "ok") { r.fail("base64_decode:accepts-misplaced-padding", d); return; }
+      if (oc == "ok") { r.fail(K("base64_decode:accepts-misplaced-padding"), d); return; }
       cls = 5;
       break;
   }
   // the std::string overload must behave exactly like the (pointer, size) overload just judged
   if (oc_s != oc || (oc == "ok" && got_s != got)) {
-    r.fail("base64_decode:string-overload-differs", [&] {
+    r.fail(K("base64_decode:string-overload-differs"), [&] {
       return d() + "; the std::string overload " + (oc_s == "ok" ? "returned " + brief(got_s) : "threw " + oc_s + " (" + what_s + ")");
     });
     return;
@@ -302,20 +529,28 @@ std::string ref_rot13(const std::string& s) {
 }
 bool rot13_case(vf::Run& r, Out* out, const std::string& s, size_t off = 0) {
   Exact in(s, off);
-  if (r.wants_desc()) r.desc(vf::fmt("rot13(%s) [pointer misaligned by %zu]", brief(s).c_str(), off));
+  if (r.wants_desc()) r.desc(vf::fmt("rot13(%s) [pointer misaligned by %zu]", brief(s).c_str(), off) + envtag());
   r.poison_errno();
-  std::string got = phosg::rot13(in.p, in.n);
+  std::string got;
+  {
+    EnvScope es;
+    got = phosg::rot13(in.p, in.n);
+  }
   if (out && out->f) fprintf(out->f, "R %s %s\n", hexs(s).c_str(), hexs(got).c_str());
   r.nontriv();
   std::string want = ref_rot13(s);
   if (got != want) {
-    r.fail("rot13:wrong-value", [&] { return vf::fmt("rot13(%s) = %s, expected %s (first difference at offset %zu)", brief(s).c_str(), brief(got).c_str(), brief(want).c_str(), first_diff(got, want)); });
+    r.fail(K("rot13:wrong-value"), [&] { return vf::fmt("rot13(%s) = %s, expected %s (first difference at offset %zu)", brief(s).c_str(), brief(got).c_str(), brief(want).c_str(), first_diff(got, want)) + envtag(); });
     return false;
   }
   Exact mid(got, off);
-  std::string twice = phosg::rot13(mid.p, mid.n);
+  std::string twice;
+  {
+    EnvScope es;
+    twice = phosg::rot13(mid.p, mid.n);
+  }
   if (twice != s) {
-    r.fail("rot13:not-involution", [&] { return vf::fmt("rot13(rot13(%s)) = %s", brief(s).c_str(), brief(twice).c_str()); });
+    r.fail(K("rot13:not-involution"), [&] { return vf::fmt("rot13(rot13(%s)) = %s", brief(s).c_str(), brief(twice).c_str()) + envtag(); });
     return false;
   }
   return true;
@@ -442,9 +677,13 @@ const char* judge_escape(const std::string& s, int e, const std::string& got, st
 }
 
 void escape_case(vf::Run& r, Out& out, const std::string& s, int e, bool to_file, uint64_t* tally) {
-  if (r.wants_desc()) r.desc(vf::fmt("%s with s = %s", esc_name[e], brief(s).c_str()));
+  if (r.wants_desc()) r.desc(vf::fmt("%s with s = %s", esc_name[e], brief(s).c_str()) + envtag());
   r.poison_errno();
-  std::string got = lib_escape(s, e);
+  std::string got;
+  {
+    EnvScope es;
+    got = lib_escape(s, e);
+  }
   if (to_file && out.f) {
     if (e <= E_URL_ESC_SLASH) fprintf(out.f, "U %d %s %s\n", e == E_URL_ESC_SLASH ? 1 : 0, hexs(s).c_str(), hexs(got).c_str());
     else if (e <= E_CTRL_UTF8) fprintf(out.f, "C %d %s %s\n", e == E_CTRL_ASCII ? 1 : 0, hexs(s).c_str(), hexs(got).c_str());
@@ -452,7 +691,11 @@ void escape_case(vf::Run& r, Out& out, const std::string& s, int e, bool to_file
   r.nontriv();
   std::string why;
   const char* key = judge_escape(s, e, got, why);
-  if (key) r.fail(key, [&] { return vf::fmt("%s with s = %s returned %s", esc_name[e], brief(s).c_str(), brief(got).c_str()) + why; });
+  // C isalnum() is locale-dependent by the C standard: under a C locale whose LC_CTYPE classifies bytes >= 0x80 as
+  // letters, escape_url's treatment of such bytes is a don't-care (executed, not compared).  No such locale exists
+  // on the development machine; the rule keeps the check sound elsewhere.
+  if (key && g_env && !g_env->c_ctype_ascii && esc_base(e) <= E_URL_ESC_SLASH && std::any_of(s.begin(), s.end(), [](char c) { return (c & 0x80) != 0; })) key = nullptr;
+  if (key) r.fail(K(key), [&] { return vf::fmt("%s with s = %s returned %s", esc_name[e], brief(s).c_str(), brief(got).c_str()) + why + envtag(); });
   else tally[e]++;
 }
 
@@ -1399,6 +1642,109 @@ VF_SECTION(chains, 8, 8, 120) {
   r.hist["chain:final value equals the input in all four chains"] += okc;
   r.bound = "x = all byte strings of length 0..2 (65 793) and every length 3..400 of 3 fills: base64url>escape_url(slash)>percent-decode>base64url-decode; base64>escape_url>percent-decode>decode; host 'h'+base64url(x) with a port derived from x through render_netloc>parse_netloc>decode; "
             "escape_controls(both flags)>rot13>rot13>C-unescape; only the final value is compared with x";
+}
+
+// Round 5: the ambient text-conversion environment as an enumerated dimension.  The classic environment first, then
+// every environment of environments(): the netloc all-ports sweep, the escaper / base64 / rot13 quick families under
+// each.  Nothing in the statement is conditional on the process locale, so the same references decide every case.
+VF_SECTION(environments, 16, 16, 180) {
+  Out out;  // never opened: no Python replay of this section
+  std::vector<std::string> missing;
+  const std::vector<Env>& envs = environments(&missing);
+  std::string a256 = all256();
+  std::string R9("Az9+-=!\x80\xFF", 9);
+  static const char* hosts[3] = {"a", "1.1", "[-] "};
+  static const Dflt dflts[3] = {{false, 0}, {true, 0}, {false, 65535}};
+  uint64_t dtally[6] = {0}, etally[NESC] = {0};
+  for (size_t ei = 0; ei <= envs.size(); ei++) {
+    const Env* env = ei ? &envs[ei - 1] : nullptr;
+    std::string ename = env ? env->name : std::string("classic (nothing installed)");
+    uint64_t okn = 0, okr = 0;
+    // (0) the environment is in force at the place of the call and gone afterwards
+    r.note("environment self-check");
+    if (r.take()) {
+      if (r.wants_desc()) r.desc("harness self-check: environment in force during the call and removed afterwards: " + ename);
+      r.nontriv();
+      std::string bad = env ? env_not_established(*env) : std::string();
+      if (!bad.empty()) r.fail("harness:environment-not-established", [&] { return ename + ": " + bad; });
+      else r.ok("environment established and restored");
+    }
+    g_env = env;
+    EnvBlock block(env);
+    // (1) netloc: all ports x 3 hosts (default_port 0 / omitted / 65535)
+    r.note("netloc under " + ename);
+    for (int hi = 0; hi < 3; hi++) {
+      const std::string h = hosts[hi];
+      const Dflt& d = dflts[hi];
+      for (int port = 0; port <= 65535; port++) {
+        if (!r.take()) continue;
+        if (r.wants_desc()) r.desc(vf::fmt("parse_netloc(render_netloc(%s, %d), %s)", vf::show(h).c_str(), port, dflt_name(d).c_str()) + envtag());
+        r.nontriv();
+        std::string rendered, what, oc;
+        std::pair<std::string, uint16_t> back;
+        r.poison_errno();
+        {
+          EnvScope es;
+          oc = vf::outcome([&] { rendered = phosg::render_netloc(h, port); back = lib_parse(rendered, d); }, &what);
+        }
+        bool port_demanded = port != 0 || d.omit || d.d == 0;
+        auto desc = [&] {
+          return vf::fmt("parse_netloc(render_netloc(%s, %d) = %s, %s): %s", vf::show(h).c_str(), port, vf::show(rendered).c_str(), dflt_name(d).c_str(),
+                     oc == "ok" ? vf::fmt("returned (%s, %u)", vf::show(back.first).c_str(), (unsigned)back.second).c_str() : ("threw " + oc + " (" + what + ")").c_str()) + envtag();
+        };
+        if (oc != "ok") r.fail(K("netloc:throws"), desc);
+        else if (back.first != h) r.fail(K("netloc:host-roundtrip"), desc);
+        else if (port_demanded && back.second != port) r.fail(K(d.omit || d.d == 0 ? "netloc:roundtrip" : "netloc:roundtrip-with-default"), desc);
+        else okn++;
+      }
+    }
+    // (2) the five base escaper call forms on all byte strings of length 0..2, the three wrapper forms on length 0..1
+    for (int e = 0; e < NESC; e++) {
+      r.note(std::string(esc_name[e]) + " under " + ename);
+      vf::all_strings(a256, e < NBASE ? 2 : 1, [&](const std::string& s) {
+        if (!r.take()) return;
+        escape_case(r, out, s, e, false, etally);
+      });
+    }
+    // (3) base64: encode + round trip of all byte strings of length 0..2, strict decode of a 9-symbol grid
+    r.note("base64 under " + ename);
+    vf::all_strings(a256, 2, [&](const std::string& x) {
+      for (int m = 0; m < 2; m++) {
+        if (!r.take()) continue;
+        encode_case(r, out, x, m, false);
+      }
+    });
+    vf::all_strings(R9, 4, [&](const std::string& s) {
+      for (int m = 0; m < 2; m++) {
+        if (!r.take()) continue;
+        decode_case(r, nullptr, s, m, dtally);
+      }
+    });
+    // (4) rot13 on all byte strings of length 0..2
+    r.note("rot13 under " + ename);
+    vf::all_strings(a256, 2, [&](const std::string& s) {
+      if (!r.take()) return;
+      if (rot13_case(r, nullptr, s)) okr++;
+    });
+    g_env = nullptr;
+    r.hist["netloc round trip, all ports: " + ename] += okn;
+    r.hist["rot13 = arithmetic model, involution: " + ename] += okr;
+  }
+  flush_decode_tally(r, dtally);
+  for (int e = 0; e < NESC; e++) r.hist[std::string(esc_name[e]) + (esc_base(e) == E_QUOTES ? ":printable,no-raw-quote" : ":alphabet-ok,decodes-to-input")] += etally[e];
+  if (r.shard == 0) {
+    r.counters["environments enumerated (classic included)"] = envs.size() + 1;
+    std::string names = "classic";
+    for (const auto& e : envs) names += " | " + e.name;
+    r.notes.push_back("environments: " + names);
+    std::string miss;
+    for (const auto& m : missing) miss += (miss.empty() ? "" : ", ") + ("\"" + m + "\"");
+    r.notes.push_back("C locale names probed with setlocale and not installed on this machine (not enumerated): " + (miss.empty() ? std::string("none") : miss));
+  }
+  r.bound = vf::fmt("%zu environments (the classic one first; 7 process-wide C++ locales built from facets: numpunct grouping \\3 with ',' or '.', \\1 with ' ', \\3\\2 with an apostrophe, decimal_point ',' alone, a ctype<char> classifying 0x80..0xFF as letters, both; every C locale of a fixed 18-name list that setlocale accepts here (\"C\", \"C.utf8\", \"\" = the checking process's LANG/LC_*; aliases once), "
+                    "installed by setlocale(LC_ALL / LC_NUMERIC / LC_CTYPE), by uselocale on the calling thread, as a named std::locale and together with a grouping C++ locale) x {render_netloc/parse_netloc: 3 hosts x all 65536 ports (default_port 0 / omitted / 65535); "
+                    "5 base escaper call forms, base64 encode+round trip (2 alphabets, both overloads) and rot13 on all byte strings of length 0..2, the 3 escaper wrapper forms on length 0..1; strict base64_decode on all strings of length 0..4 over {A,z,9,+,-,=,!,0x80,0xFF} x 2 alphabets x both overloads}",
+      envs.size() + 1);
 }
 
 VF_MAIN()
